@@ -298,7 +298,8 @@ impl<'a> El<'a> {
         use OpKind::*;
         let live = self.operands();
         let x = pick(i[1], &live);
-        let ops: Vec<OpKind> = if self.cfg.exact_only { vec![Add, Mul, Sub, Axpy(pick(i[6], &SCALES))] } else { vec![Add, Mul, Sub, Div, Axpy(pick(i[6], &SCALES))] };
+        // (the cost closures are binary operations too: operands (output, target))
+        let ops: Vec<OpKind> = if self.cfg.exact_only { vec![Add, Mul, Sub, Axpy(pick(i[6], &SCALES))] } else { vec![Add, Mul, Sub, Div, Axpy(pick(i[6], &SCALES)), Add, Mul, Sub, CostMse, Div, CostCe] };
         let op = pick(i[7], &ops);
         let xd = self.dims(x);
         let y = if i[3] >= 150 {
